@@ -306,8 +306,10 @@ def check_c05(ck, tier, replay=None):
                        'atomic-block (Lipton) reduction: a transaction = one blocking acquisition plus everything up to the next blocking acquisition; justified by the lockset obligations (all shared accesses under the reader mutex / output token) which are checked on the extracted traces',
                        'main thread: the tail of CsgApplication::Run after BeginEvaluate (ring initialisation, Start, releasing the two first tokens, WaitDone in worker order, merge in unordered mode), cross-checked against the call order in the IR']
     parsed = {}; found = []
-    configs = [(2, 1, 1), (2, 1, 0), (2, 2, 1), (2, 2, 0)] if tier == 'quick' else [(2, 1, 1), (2, 1, 0), (2, 2, 1), (2, 2, 0), (3, 1, 1), (3, 1, 0), (3, 2, 1), (2, 3, 1), (2, 3, 0)]
-    if tier == 'quick': configs = [(2, 2, 1), (2, 2, 0), (3, 1, 1)]
+    # (threads, selectable frames after the first, ordered?) -- measured: the whole thorough list ~20 min on 8 solver workers
+    configs = [(2, 2, 1), (2, 2, 0), (3, 1, 1), (3, 1, 0)] if tier == 'quick' else [(2, 1, 1), (2, 1, 0), (2, 2, 1), (2, 2, 0), (2, 3, 1), (2, 3, 0), (3, 1, 1), (3, 1, 0), (3, 2, 1), (3, 2, 0), (3, 3, 1), (4, 1, 1), (4, 1, 0), (5, 1, 1)]
+    if os.environ.get('VERIF_C05_CONFIGS'):      # experiments: "T,F,sync;T,F,sync"
+        configs = [tuple(int(x) for x in c.split(',')) for c in os.environ['VERIF_C05_CONFIGS'].split(';')]
     TO = 240 if tier == 'quick' else 3000
     cross_check_main(ck, mod)
     cache = {}
